@@ -69,7 +69,7 @@ func checkC16(spec *PropSpec, repo, tier string, seed int, workers int) int {
 	}{{R, "", "scenario_plain_commands"}, {-2, "-stalled", "scenario_stalled_client"},
 		{-3, "-stalled-oversized", "scenario_stalled_client_oversized_message"},
 		{-4, "-extended-cycle", "scenario_extended_query_cycle"}, {-5, "-malformed", "scenario_command_ending_in_an_error"}, {-1, "-discarding", "scenario_discarding"},
-		{-6, "-two-listeners", "scenario_served_on_two_listeners"}, {-7, "-panicking-statement", "scenario_statement_function_panics"}, {-8, "-stalled-in-authentication", "scenario_client_silent_during_authentication"}}
+		{-6, "-two-listeners", "scenario_served_on_two_listeners"}, {-7, "-panicking-statement", "scenario_statement_function_panics"}, {-8, "-stalled-in-authentication", "scenario_client_silent_during_authentication"}, {-9, "-stalled-in-handshake", "scenario_client_silent_during_the_handshake"}}
 	// the scenarios are independent (and z3 is single-threaded): run them side by side
 	rcs := make([]int, len(scenarios))
 	var wgS sync.WaitGroup
@@ -234,7 +234,7 @@ func checkC16Scenario(spec *PropSpec, repo, tier string, seed int, workers int, 
 			}
 		}
 		specPath := filepath.Join(scratch, "spec.json")
-		data, _ := json.Marshal(map[string]any{"threads": low, "timeout_ms": 900000, "need_handler": R != -2 && R != -3 && R != -5 && R != -6 && R != -8})
+		data, _ := json.Marshal(map[string]any{"threads": low, "timeout_ms": 900000, "need_handler": R != -2 && R != -3 && R != -5 && R != -6 && R != -8 && R != -9})
 		os.WriteFile(specPath, data, 0o644)
 		ctx, cancel := context.WithTimeout(context.Background(), 40*time.Minute)
 		defer cancel()
